@@ -138,7 +138,13 @@ inline std::string go_command(Tape& t, Runner& r, bool& sendStop)
         if (t.flag()) c += " movestogo " + std::to_string(t.choose(201));
         break;
     }
-    case 4: c += " infinite"; sendStop = true; break;
+    case 4:
+        // with an immediate stop, or left running until the engine ends it by itself / the harness's visit cap stops it
+        // (in blocked or bare endings dozens of iterations complete within the cap)
+        c += " infinite";
+        sendStop = t.flag();
+        if (!sendStop) r.st.cls["c10:go_infinite_left_running"]++;
+        break;
     default: break;  // bare "go": default depth
     }
     if (t.chance(1, 5))
@@ -211,9 +217,44 @@ inline bool run_session(Tape& t, Stats& st, Report* rep, const std::string& tmpd
         case 0:
         {
             // a new position: short game, constructed FEN, themed, heavy, or a long game
-            int pk = t.weighted({4, 3, 2, 2, 1});
+            int pk = t.weighted({4, 3, 2, 2, 1, 2});
             gen::Root g;
-            if (pk == 0) g = gen::gen_game(t, rep, 120);
+            if (pk == 5)
+            {
+                // endings in which every iteration costs a handful of nodes, so that depth-indexed arrays are exercised up
+                // to (and past) the last iteration: bare kings, a lone minor piece, kings with mutually blocked pawns
+                ref::Pos q;
+                gen::place_kings(t, q, false);
+                int kind = int(t.choose(3));
+                if (kind == 1)
+                {
+                    int sq = gen::free_square(t, q, false);
+                    if (sq >= 0) q.b[sq] = "NBnb"[t.choose(4)];
+                }
+                else if (kind == 2)
+                {
+                    int pairs = 1 + int(t.choose(3));
+                    for (int k = 0; k < pairs; ++k)
+                    {
+                        int f = int(t.choose(8)), rk = 1 + int(t.choose(5));
+                        if (q.b[ref::SQ(f, rk)] == '.' && q.b[ref::SQ(f, rk + 1)] == '.')
+                        {
+                            q.b[ref::SQ(f, rk)] = 'P';
+                            q.b[ref::SQ(f, rk + 1)] = 'p';
+                        }
+                    }
+                }
+                q.wtm = !t.flag();
+                gen::repair_not_to_move_check(q);
+                if (ref::domain_violation(q).empty() && !ref::legal_moves(q).empty())
+                {
+                    g.start = g.cur = q;
+                    st.cls["c10:tiny_ending_position"]++;
+                }
+                else
+                    g = gen::gen_root(t, rep, 20);
+            }
+            else if (pk == 0) g = gen::gen_game(t, rep, 120);
             else if (pk == 1) g = gen::gen_root(t, rep, 60);
             else if (pk == 2)
             {
